@@ -153,6 +153,8 @@ class Sched(object):
             self._finish(a)
             if not self.all_done.wait(120):
                 raise HarnessError("scheduler did not finish (lost baton?)")
+            if self.abort == "exit":
+                self.abort = None
         finally:
             _CURRENT = None
             self.by_ident.pop(a.ident, None)
@@ -197,8 +199,14 @@ class Sched(object):
                 # nobody can run: a deadlock (or the rest of an aborted run).  Release every
                 # blocked actor; each wakes up inside _switch, sees the abort and unwinds.
                 if self.abort is None:
-                    self.deadlock = [(b.name, repr(b.blocked_on)) for b in blocked]
-                    self.abort = "deadlock"
+                    if a.index == 0 and all(getattr(b.data.get("simthread"), "daemon", False) for b in blocked):
+                        # the main thread is done and only daemon threads are left, parked for ever (a writer
+                        # waiting on its queue): that is how a process with daemon threads ends, no deadlock
+                        self.probes["daemon_threads_parked_at_exit"] = self.probes.get("daemon_threads_parked_at_exit", 0) + 1
+                        self.abort = "exit"
+                    else:
+                        self.deadlock = [(b.name, repr(b.blocked_on)) for b in blocked]
+                        self.abort = "deadlock"
                 for b in blocked:
                     b.state = RUNNABLE
                     b.blocked_on = None
@@ -270,9 +278,15 @@ class Sched(object):
         others = self._runnable()
         if not others:
             if self.abort is None:
-                self.deadlock = [(b.name, repr(b.blocked_on)) for b in self.actors
-                                 if b.state == BLOCKED]
-                self.abort = "deadlock"
+                waiting = [b for b in self.actors if b.state == BLOCKED]
+                if self.actors[0].state == DONE and all(
+                        getattr(b.data.get("simthread"), "daemon", False) for b in waiting):
+                    # the main thread is done; what is left are daemon threads going to sleep for good
+                    self.probes["daemon_threads_parked_at_exit"] = self.probes.get("daemon_threads_parked_at_exit", 0) + 1
+                    self.abort = "exit"
+                else:
+                    self.deadlock = [(b.name, repr(b.blocked_on)) for b in waiting]
+                    self.abort = "deadlock"
             a.state = RUNNABLE
             a.blocked_on = None
             raise SimAbort(self.abort)
@@ -690,6 +704,30 @@ class SimQueue(object):
         self._items = []
         self.put_log = []   # everything ever put, in put order (oracle use)
         self.put_stamps = []
+        self._unfinished = 0
+        self._join_token = object()
+
+    def task_done(self):
+        # queue.Queue's bookkeeping for join()
+        if self._unfinished <= 0:
+            raise ValueError("task_done() called too many times")
+        self._unfinished -= 1
+        if self._unfinished == 0:
+            s = _CURRENT
+            if s is not None and s.by_ident.get(get_ident()) is not None:
+                s.wake(self._join_token)
+                s.yield_point("queue.task_done")
+
+    def join(self):
+        s = _CURRENT
+        a = s.by_ident.get(get_ident()) if s is not None else None
+        if a is None:
+            if self._unfinished:
+                raise HarnessError("SimQueue.join would block outside a run")
+            return
+        s.yield_point("queue.join")
+        while self._unfinished > 0:
+            s.block_on(self._join_token)
 
     def put(self, item, block=True, timeout=None):
         s = _CURRENT
@@ -697,6 +735,7 @@ class SimQueue(object):
         if a is not None:
             s.yield_point("queue.put")
         self._items.append(item)
+        self._unfinished += 1
         self.put_log.append(item)
         self.put_stamps.append(s.stamp() if a is not None else 0)
         if a is not None:
